@@ -375,13 +375,16 @@ def main():
     new_v = 0
     known_seen = {}
     out_lines = []
+    groups = {}
     for n, (r, why, finding, witness) in enumerate(viols):
         if finding and (prop, finding) in known:
             known_seen.setdefault(finding, 0)
             known_seen[finding] += 1
             continue
         new_v += 1
-        if new_v <= MAX_REPORT:
+        gk = re.sub(r"0x[0-9a-f]+|[0-9a-f]{6,}|\d+", "#", why)[:100]
+        groups[gk] = groups.get(gk, 0) + 1
+        if groups[gk] <= 3 and len(out_lines) < MAX_REPORT:
             name = "%s-%d-%s-%s-%d.json" % (prop, a.seed, r.get("pass", "p"), re.sub(r"[^A-Za-z0-9_.]", "_", str(r.get("family"))), r.get("idx", 0))
             path = os.path.join(ROOT, "replay", name)
             k = 1
@@ -394,9 +397,11 @@ def main():
                        "rerun": "./check %s --replay %s" % (prop, path)}, open(path, "w"), indent=1, default=str)
             out_lines.append(path)
             print("VIOLATION property=%s replay=%s" % (prop, path))
-            print("  why: " + why.replace("\n", "\n       ")[:1500])
-    if new_v > MAX_REPORT:
-        print("... and %d more violations of %s (not written out)" % (new_v - MAX_REPORT, prop))
+            print("  why: " + why.replace("\n", "\n       ")[:700])
+    if new_v > len(out_lines):
+        print("... and %d more violations of %s not written out; by kind:" % (new_v - len(out_lines), prop))
+        for gk, cnt in sorted(groups.items(), key=lambda kv: -kv[1])[:30]:
+            print("   %6d x %s" % (cnt, gk))
     for k, cnt in known_seen.items():
         print("KNOWN-FINDING: property=%s %s (%d occurrence(s) this run): %s" % (prop, k, cnt, known[(prop, k)].get("description", "")))
 
